@@ -40,6 +40,8 @@ def mkfood(nutrient, unit, vals):
     labels[IDX[nutrient]] = unit
     if sfx == " each month":
         arr = np.array(vals, dtype=float)
+        if len(vals) % 2 == 1:   # the documented way: python lists (the constructor turns them into arrays)
+            return Food(list(arr), list(arr * 0.5), list(arr * 0.25), *labels)
         return Food(arr.copy(), arr.copy() * 0.5, arr.copy() * 0.25, *labels)
     return Food(float(vals[0]), float(vals[0]) * 0.5, float(vals[0]) * 0.25, *labels)
 
@@ -104,7 +106,7 @@ def run(payload):
                         fail("suffix-inconsistent", f"{nutrient} '{k}' vs '{k2}': {table[k]} vs {table[k2]}", s, unit=k, unit2=k2)
             # pairs: round trip + shape + labels (a sample of source units for the history follow-ups)
             for u in (rng.sample(keys, 3) if light else keys):
-                vals = [rng.uniform(0.5, 1e6) for _ in range(3)]
+                vals = [rng.uniform(0.5, 1e6) for _ in range(rng.choice((1, 1, 2, 3, 6)))]  # incl. the one-month series
                 for v in bare:
                     stats["pairs"] += 1
                     try:
@@ -123,6 +125,9 @@ def run(payload):
                         fail("roundtrip", f"{nutrient}: '{u}' -> '{v}' -> '{base_of(u)}' changes the value by {e:.3e} relative", s,
                              nutrient=nutrient, u=u, v=v, start=food_json(x), back=food_json(z))
                     stats["shape_cases"] += 1
+                    if sfx_of(u) == " each month" and not (x.is_list_monthly() and len(x.kcals) == len(vals)):
+                        fail("shape", f"{nutrient}: a {len(vals)}-month series labelled '{u}' is not a series after construction", s,
+                             nutrient=nutrient, u=u, v=v)
                     if food_json(x) != before:
                         fail("operand-modified", f"in_units modified its operand ({u}->{v})", s, nutrient=nutrient, u=u, v=v)
                     if y.is_list_monthly() != x.is_list_monthly() or (x.is_list_monthly() and len(y.kcals) != len(x.kcals)):
@@ -183,7 +188,7 @@ def run(payload):
                 trip = rng.sample(trip, min(len(trip), 20 if light else 150))
             for u, v, w in trip:
                 stats["triples"] += 1
-                vals = [rng.uniform(0.5, 1e6) for _ in range(3)]
+                vals = [rng.uniform(0.5, 1e6) for _ in range(rng.choice((1, 1, 2, 3, 6)))]  # incl. the one-month series
                 try:
                     with quiet():
                         x = mkfood(nutrient, u, vals)
